@@ -21,10 +21,17 @@ Fixpoint reads_storage (e : expr) : bool :=
 
 (* isDistributive on a non-nil expression: binary expressions are joins over the
    whole data set; an aggregation must be in the table and its parameter must
-   not read the storage (it would be evaluated per partition) *)
+   not read the storage (it would be evaluated per partition); a call must be
+   one that is evaluated series by series *)
+(* calls that are not evaluated series by series: absent() and absent_over_time() look at all series
+   at once, a function without its vector argument (hour(), year(), ...) evaluates vector(time()) *)
+Definition global_call (f : string) (args : list expr) : bool :=
+  String.eqb f "absent" || String.eqb f "absent_over_time" || match args with [] => true | _ => false end.
+
 Definition distributive (e : expr) : bool :=
   match e with
   | EBin _ _ _ _ _ _ _ _ => false
+  | ECall f args => negb (global_call f args)
   | EAgg op _ _ p _ => mem_str op distributive_aggs &&
                        negb (match p with Some pe => reads_storage pe | None => false end)
   | _ => true
